@@ -16,7 +16,13 @@ import (
 )
 
 func init() {
-	core.Register(core.Check{ID: "C19", Level: "exploration", Run: func(c *core.Ctx) { runC19(c); historyPass(c, "C19"); reentrancyPass(c, "C19"); arch386Pass(c, "C19") }})
+	core.Register(core.Check{ID: "C19", Level: "exploration", Run: func(c *core.Ctx) {
+		waitArch := background(func() { arch386Pass(c, "C19") })
+		runC19(c)
+		historyPass(c, "C19")
+		reentrancyPass(c, "C19")
+		waitArch()
+	}})
 }
 
 var c19Known = map[string]address.Prefix{"iota": address.IOTAMainnet, "atoi": address.IOTADevnet, "smr": address.ShimmerMainnet, "rms": address.ShimmerDevnet}
